@@ -4,4 +4,4 @@ CONSTANTS
   Protocols = {"p", "q"}
   Wire = TRUE
   Budget = 2
-INVARIANTS TypeOK CompleteIff Agreement InitiatorSound ResponderSound WireSound ProtocolMismatchFails
+INVARIANTS TypeOK CompleteIff Agreement InitiatorSound ResponderSound WireSound ProtocolMismatchFails NoTouchedWordAccepted
